@@ -1563,7 +1563,7 @@ def covariance(obs, visualize=False, correlation=False, smooth=None, **kwargs):
     corr[variances <= 0, variances <= 0] = 1.0  # an observable without fluctuations is uncorrelated with everything
 
     if isinstance(smooth, (int, np.integer)):
-        corr = _smooth_eigenvalues(corr, smooth)
+        corr = _smooth_eigenvalues(corr, int(smooth))
 
     if visualize:
         plt.matshow(corr, vmin=-1, vmax=1)
